@@ -357,175 +357,286 @@ def qloop_rules(run, db, rule='C07.qloop'):
         dom.call_prysm = call_prysm
         return it, dom
 
-    # ------------------------------------------------------------------ Q2d
-    it, dom = mk()
-    R = dom.R
-    at = lambda name, *a: Rat(R.func(name, list(a)))
-    C = lambda v: Rat(R.const(v))
-    f = db.func(Q + 'Q2d')
-    snaps = snapshot_loops(it, dom)
-    res = []
-    prefix_runs = it.run(f, kwargs=lambda: {'n': dom.sym('n'), 'm': dom.sym('m'), 'r': dom.sym('r'), 't': dom.sym('t')})
-    # snapshots are appended in run order: pair them with their paths through the recorded conditions
-    x = Rat(R.atom('r')) * Rat(R.atom('r'))
-    n_, m_, r_, t_ = [Rat(R.atom(a)) for a in 'nmrt']
-    kinds = set()
-    for p in prefix_runs:
-        if p.outcome != 'return':
-            continue
-        got = as_rat(dom, p.value, 'Q2d')
-        if _has(p, 'm == 0', True):
-            run.check(got == at('Qbfs', n_, r_), rule, f.qual, 'm = 0', 'Q_n^0 is the Qbfs polynomial of order n in r', 'Q2d(n, 0) returns %s' % got.key(), f.loc())
-            kinds.add('m0')
-            continue
-        M = as_rat(dom, p.frame.env['m'], 'm')
-        neg = _has(p, 'sign(m) == -1', True)
-        want_M = dom.rat(dom.call_ext('builtins.abs', [Sym(m_)], {}, None))
-        okM = M == want_M
-        pref = (at('pow', r_, M) * Rat(R.trig('sin', M * t_))) if neg else (at('pow', r_, m_) * Rat(R.trig('cos', m_ * t_)))
-        m1 = _has(p, 'm == 1', True)
-        fq = lambda k: at('f_q2d', C(k), M)
-        gq = lambda k: at('g_q2d', C(k), M)
-        P0 = C(1) / 2
-        P1 = (1 - x / 2) if m1 else ((M - C(1) / 2) + (1 - M) * x)
-        Q0 = 1 / (2 * fq(0))
-        Q1 = (P1 - gq(0) * Q0) / fq(1)
-        P2 = (3 - x * (12 - 8 * x)) / 6
-        P3 = (5 - x * (60 - x * (120 - 64 * x))) / 10
-        Q2 = (P2 - gq(1) * Q1) / fq(2)
-        Q3 = (P3 - gq(2) * Q2) / fq(3)
-        label = '%s, %s' % ('m < 0' if neg else 'm > 0', '|m| = 1' if m1 else ('|m| != 1' if _has(p, 'm == 1', False) else ''))
-        run.check(okM, rule, f.qual, 'order used (%s)' % ('m < 0' if neg else 'm > 0'), 'the coefficients are taken at |m|', 'Q2d evaluates its coefficients at %s, expected |m|' % M.key(), f.loc())
-        base = None
-        for k, Qk in ((0, Q0), (1, Q1), (2, Q2), (3, Q3)):
-            if _has(p, 'n == %d' % k, True):
-                base = (k, Qk)
-        if base is not None:
-            k, Qk = base
-            if not neg and _has(p, 'm == 0', False) and (_has(p, 'sign(m) == -1', False) or _has(p, 'm < 0', False) or _has(p, 'm > 0', True)):
-                # on this path m > 0: |m| and m are the same number, however the routine spells it
-                absm = 'abs(%s)' % m_.key()
-                got = got.subs({absm: m_})
-                Qk, pref = Qk.subs({absm: m_}), pref.subs({absm: m_})
-            run.check(got == Qk * pref, rule, f.qual, 'n = %d (%s)' % (k, label), 'Q_%d^m = published starting value times u^|m| %s(|m| t)' % (k, 'sin' if neg else 'cos'),
-                      'Q2d(n=%d; %s) returns %s, expected %s' % (k, label, got.key(), (Qk * pref).key()), f.loc())
-            kinds.add('base%d%s%s' % (k, neg, m1))
-            continue
-        # loop path
-        mine = [sn for sn in snaps if sn.conds == p.conds[:len(sn.conds)] and len(sn.conds) == len(p.conds)]
-        if len(mine) != 1:
-            raise AnalysisError('Q2d: could not pair the loop snapshot with the path %s' % (p.conds,))
-        sn = mine[0]
-        env = sn.env
-        want0 = (P2, P3, Q3, 4) if m1 else (P0, P1, Q1, 2)
-        # the roles of the carried names are read off their entry values; the sweep range is evaluated, not spelled
-        nn = Rat(R.atom('nn'))
-        sw = sweep_step(it, dom, f, sn, {'P2': want0[0], 'P1': want0[1], 'Q1': want0[2]})
-        it_args = sn.node.iter.args if isinstance(sn.node.iter, ast.Call) and ast.unparse(sn.node.iter.func) == 'range' else None
-        fr0 = Frame(f, f.module, dict(env))
-        rng = [dom.rat(it.ev(a, fr0)) for a in it_args] if it_args is not None and len(it_args) == 2 else None
-        ok0 = all(v is not None for v in sw.roles.values()) and set(sw.carried) == set(sw.roles.values()) and rng is not None and rng[0] is not None and rng[0] == C(want0[3])
-        run.check(ok0, rule, f.qual, 'initial values (%s)' % label, 'the recurrence starts from (P_%d, P_%d, Q_%d) at order %d' % (want0[3] - 2, want0[3] - 1, want0[3] - 1, want0[3]),
-                  'Q2d (%s) enters its loop with %s, first order %s; expected the carried values (%s, %s, %s) and first order %d' %
-                  (label, ', '.join('%s=%s' % (k, v.key() if v is not None else '?') for k, v in sorted(sw.entry.items())), rng[0].key() if rng and rng[0] is not None else '?',
-                   want0[0].key(), want0[1].key(), want0[2].key(), want0[3]), f.loc(sn.node))
-        okr = rng is not None and rng[1] is not None and rng[1] == n_ + 1
-        run.check(okr, rule, f.qual, 'sweep range (%s)' % label, 'the sweep runs from the first order to n inclusive', 'Q2d sweeps %s' % ast.unparse(sn.node.iter), f.loc(sn.node))
-        kinds.add('loop%s%s' % (neg, m1))
-        if not ok0:
-            continue
-        iP2, iP1, iQ1 = [Rat(R.atom('in_' + k)) for k in ('P2', 'P1', 'Q1')]
-        Mx = M
-        Pn = (at('A_q2d', nn - 1, Mx) + at('B_q2d', nn - 1, Mx) * x) * iP1 - at('C_q2d', nn - 1, Mx) * iP2
-        Qn = (Pn - at('g_q2d', nn - 1, Mx) * iQ1) / at('f_q2d', nn, Mx)
-        gotv = [dom.rat(sw.out(k)) if sw.out(k) is not None else None for k in ('P2', 'P1', 'Q1')]
-        oks = all(v is not None for v in gotv) and gotv[0] == iP1 and gotv[1] == Pn and gotv[2] == Qn
-        run.check(oks, rule, f.qual, 'step (%s)' % label, 'P_n = (A_(n-1) + B_(n-1) x) P_(n-1) - C_(n-1) P_(n-2); Q_n = (P_n - g_(n-1) Q_(n-1))/f_n; the pair is rotated',
-                  'Q2d recurrence step gives (P_(n-2), P_(n-1), Q_(n-1)) <- (%s), expected (P_(n-1), P_n, Q_n) with P_n = %s, Q_n = %s' % (', '.join(v.key() if v is not None else '?' for v in gotv), Pn.key(), Qn.key()), f.loc(sn.node))
-        # what is returned after the sweep is the Q of the last order
-        lastq = set(sw.fresh_equal(dom, Qn))
-        posts = post_atoms(got)
-        got_, pref_ = got, pref
-        if not neg and _has(p, 'm == 0', False) and (_has(p, 'sign(m) == -1', False) or _has(p, 'm < 0', False) or _has(p, 'm > 0', True)):
-            absm = 'abs(%s)' % m_.key()          # m > 0 on this path: |m| is m
-            got_, pref_ = got.subs({absm: m_}), pref.subs({absm: m_})
-        okres = len(posts) == 1 and posts <= lastq and got_ == Rat(R.atom('post_' + sorted(posts)[0])) * pref_
-        run.check(okres, rule, f.qual, 'result (%s)' % label, 'the last Q computed by the sweep times u^|m| %s(|m| t) is returned' % ('sin' if neg else 'cos'),
-                  'Q2d returns %s after the sweep (the names holding Q_n after an iteration are %s)' % (got.key(), sorted(lastq)), f.loc())
-    need = {'m0'} | {'base%d%s%s' % (k, neg, m1) for k in (0, 1) for neg in (True, False) for m1 in (True, False)} | {'base%d%sTrue' % (k, neg) for k in (2, 3) for neg in (True, False)} \
-        | {'loop%s%s' % (neg, m1) for neg in (True, False) for m1 in (True, False)}
-    if not need <= kinds:
-        raise AnalysisError('Q2d: expected cases not all found, missing %s' % sorted(need - kinds))
-
-    # ------------------------------------------------------------------ Qbfs
-    it, dom = mk()
-    R = dom.R
-    at = lambda name, *a: Rat(R.func(name, list(a)))
-    C = lambda v: Rat(R.const(v))
-    f = db.func(Q + 'Qbfs')
-    snaps = snapshot_loops(it, dom)
-    xx = Rat(R.atom('x'))
-    rho = xx * xx
-    cQ = rho * (1 - rho)
-    s19 = Rat(R.sqrt(C(19)))
-    kinds = set()
-    for p in it.run(f, kwargs=lambda: {'n': dom.sym('n'), 'x': dom.sym('x')}):
-        if p.outcome != 'return':
-            continue
-        got = as_rat(dom, p.value, 'Qbfs')
-        if _has(p, 'n == 0', True):
-            run.check(got == cQ, rule, f.qual, 'n = 0', 'Qbfs_0 = rho^2 (1 - rho^2) with rho = x', 'Qbfs(0) = %s' % got.key(), f.loc()); kinds.add(0)
-        elif _has(p, 'n == 1', True):
-            run.check(got == cQ * (13 - 16 * rho) / s19, rule, f.qual, 'n = 1', 'Qbfs_1 = rho^2(1-rho^2)(13 - 16 rho^2)/sqrt(19)', 'Qbfs(1) = %s' % got.key(), f.loc()); kinds.add(1)
-        else:
-            mine = [sn for sn in snaps if sn.conds == p.conds]
+    def part_q2d():
+        # ------------------------------------------------------------------ Q2d
+        it, dom = mk()
+        R = dom.R
+        at = lambda name, *a: Rat(R.func(name, list(a)))
+        C = lambda v: Rat(R.const(v))
+        f = db.func(Q + 'Q2d')
+        snaps = snapshot_loops(it, dom)
+        res = []
+        prefix_runs = it.run(f, kwargs=lambda: {'n': dom.sym('n'), 'm': dom.sym('m'), 'r': dom.sym('r'), 't': dom.sym('t')})
+        # snapshots are appended in run order: pair them with their paths through the recorded conditions
+        x = Rat(R.atom('r')) * Rat(R.atom('r'))
+        n_, m_, r_, t_ = [Rat(R.atom(a)) for a in 'nmrt']
+        kinds = set()
+        for p in prefix_runs:
+            if p.outcome != 'return':
+                continue
+            got = as_rat(dom, p.value, 'Q2d')
+            if _has(p, 'm == 0', True):
+                run.check(got == at('Qbfs', n_, r_), rule, f.qual, 'm = 0', 'Q_n^0 is the Qbfs polynomial of order n in r', 'Q2d(n, 0) returns %s' % got.key(), f.loc())
+                kinds.add('m0')
+                continue
+            M = as_rat(dom, p.frame.env['m'], 'm')
+            neg = _has(p, 'sign(m) == -1', True)
+            want_M = dom.rat(dom.call_ext('builtins.abs', [Sym(m_)], {}, None))
+            okM = M == want_M
+            pref = (at('pow', r_, M) * Rat(R.trig('sin', M * t_))) if neg else (at('pow', r_, m_) * Rat(R.trig('cos', m_ * t_)))
+            m1 = _has(p, 'm == 1', True)
+            fq = lambda k: at('f_q2d', C(k), M)
+            gq = lambda k: at('g_q2d', C(k), M)
+            P0 = C(1) / 2
+            P1 = (1 - x / 2) if m1 else ((M - C(1) / 2) + (1 - M) * x)
+            Q0 = 1 / (2 * fq(0))
+            Q1 = (P1 - gq(0) * Q0) / fq(1)
+            P2 = (3 - x * (12 - 8 * x)) / 6
+            P3 = (5 - x * (60 - x * (120 - 64 * x))) / 10
+            Q2 = (P2 - gq(1) * Q1) / fq(2)
+            Q3 = (P3 - gq(2) * Q2) / fq(3)
+            label = '%s, %s' % ('m < 0' if neg else 'm > 0', '|m| = 1' if m1 else ('|m| != 1' if _has(p, 'm == 1', False) else ''))
+            run.check(okM, rule, f.qual, 'order used (%s)' % ('m < 0' if neg else 'm > 0'), 'the coefficients are taken at |m|', 'Q2d evaluates its coefficients at %s, expected |m|' % M.key(), f.loc())
+            base = None
+            for k, Qk in ((0, Q0), (1, Q1), (2, Q2), (3, Q3)):
+                if _has(p, 'n == %d' % k, True):
+                    base = (k, Qk)
+            if base is not None:
+                k, Qk = base
+                if not neg and _has(p, 'm == 0', False) and (_has(p, 'sign(m) == -1', False) or _has(p, 'm < 0', False) or _has(p, 'm > 0', True)):
+                    # on this path m > 0: |m| and m are the same number, however the routine spells it
+                    absm = 'abs(%s)' % m_.key()
+                    got = got.subs({absm: m_})
+                    Qk, pref = Qk.subs({absm: m_}), pref.subs({absm: m_})
+                run.check(got == Qk * pref, rule, f.qual, 'n = %d (%s)' % (k, label), 'Q_%d^m = published starting value times u^|m| %s(|m| t)' % (k, 'sin' if neg else 'cos'),
+                          'Q2d(n=%d; %s) returns %s, expected %s' % (k, label, got.key(), (Qk * pref).key()), f.loc())
+                kinds.add('base%d%s%s' % (k, neg, m1))
+                continue
+            # loop path
+            mine = [sn for sn in snaps if sn.conds == p.conds[:len(sn.conds)] and len(sn.conds) == len(p.conds)]
             if len(mine) != 1:
-                raise AnalysisError('Qbfs: loop snapshot not found')
+                raise AnalysisError('Q2d: could not pair the loop snapshot with the path %s' % (p.conds,))
             sn = mine[0]
             env = sn.env
-            want0 = [C(2), 6 - 8 * rho, C(1), (13 - 16 * rho) / s19]
-            sw = sweep_step(it, dom, f, sn, dict(zip(('P2', 'P1', 'Q2', 'Q1'), want0)))
-            ok0 = all(v is not None for v in sw.roles.values()) and set(sw.carried) == set(sw.roles.values())
-            run.check(ok0, rule, f.qual, 'initial values', 'P_0 = 2, P_1 = 6 - 8 rho^2, Q_0 = 1, Q_1 = (13 - 16 rho^2)/sqrt(19)',
-                      'Qbfs enters its loop with %s' % ', '.join('%s=%s' % (k, v.key() if v is not None else '?') for k, v in sorted(sw.entry.items())), f.loc(sn.node))
+            want0 = (P2, P3, Q3, 4) if m1 else (P0, P1, Q1, 2)
+            # the roles of the carried names are read off their entry values; the sweep range is evaluated, not spelled
+            nn = Rat(R.atom('nn'))
+            sw = sweep_step(it, dom, f, sn, {'P2': want0[0], 'P1': want0[1], 'Q1': want0[2]})
+            it_args = sn.node.iter.args if isinstance(sn.node.iter, ast.Call) and ast.unparse(sn.node.iter.func) == 'range' else None
             fr0 = Frame(f, f.module, dict(env))
-            it_args = sn.node.iter.args if isinstance(sn.node.iter, ast.Call) and ast.unparse(sn.node.iter.func) == 'range' else []
-            rng = [dom.rat(it.ev(a, fr0)) for a in it_args]
-            okr = len(rng) == 2 and all(v is not None for v in rng) and rng[0] == C(2) and rng[1] == Rat(R.atom('n')) + 1
-            run.check(okr, rule, f.qual, 'sweep range', 'the sweep runs from 2 to n inclusive', 'Qbfs sweeps %s' % ast.unparse(sn.node.iter), f.loc(sn.node))
-            if ok0:
-                nn = Rat(R.atom('nn'))
-                iP2, iP1, iQ2, iQ1 = [Rat(R.atom('in_' + k)) for k in ('P2', 'P1', 'Q2', 'Q1')]
-                Pn = (2 - 4 * rho) * iP1 - iP2
-                Qn = (Pn - at('g_qbfs', nn - 1) * iQ1 - at('h_qbfs', nn - 2) * iQ2) / at('f_qbfs', nn)
-                gotv = [dom.rat(sw.out(k)) if sw.out(k) is not None else None for k in ('P2', 'P1', 'Q2', 'Q1')]
-                oks = all(v is not None for v in gotv) and gotv[0] == iP1 and gotv[1] == Pn and gotv[2] == iQ1 and gotv[3] == Qn
-                run.check(oks, rule, f.qual, 'step', 'P_n = (2 - 4 rho^2) P_(n-1) - P_(n-2); Q_n = (P_n - g_(n-1) Q_(n-1) - h_(n-2) Q_(n-2))/f_n; both pairs are rotated',
-                          'Qbfs recurrence step gives %s' % [v.key() if v is not None else '?' for v in gotv], f.loc(sn.node))
-                lastq = set(sw.fresh_equal(dom, Qn))
-                posts = post_atoms(got)
-                okres = len(posts) == 1 and posts <= lastq and got == Rat(R.atom('post_' + sorted(posts)[0])) * cQ
-                run.check(okres, rule, f.qual, 'result', 'the last Q of the sweep times rho^2(1-rho^2) is returned',
-                          'Qbfs returns %s (the names holding Q_n after an iteration are %s)' % (got.key(), sorted(lastq)), f.loc())
-            kinds.add(2)
-    if kinds != {0, 1, 2}:
-        raise AnalysisError('Qbfs: expected the cases n = 0, 1, general')
-    # Qcon
-    it, dom = mk()
-    R = dom.R
+            rng = [dom.rat(it.ev(a, fr0)) for a in it_args] if it_args is not None and len(it_args) == 2 else None
+            if any(v is None for v in sw.roles.values()) or rng is None or rng[0] is None:
+                # the recurrence is not carried by locals of a loop in this routine whose entry values are the starting polynomials (a helper,
+                # a generator, a table): which local plays which role cannot be read off, so nothing about the sweep is judged here
+                raise AnalysisError('Q2d (%s): the sweep that carries (P_(n-2), P_(n-1), Q_(n-1)) is not found in the form this rule follows' % label)
+            ok0 = all(v is not None for v in sw.roles.values()) and set(sw.carried) == set(sw.roles.values()) and rng is not None and rng[0] is not None and rng[0] == C(want0[3])
+            run.check(ok0, rule, f.qual, 'initial values (%s)' % label, 'the recurrence starts from (P_%d, P_%d, Q_%d) at order %d' % (want0[3] - 2, want0[3] - 1, want0[3] - 1, want0[3]),
+                      'Q2d (%s) enters its loop with %s, first order %s; expected the carried values (%s, %s, %s) and first order %d' %
+                      (label, ', '.join('%s=%s' % (k, v.key() if v is not None else '?') for k, v in sorted(sw.entry.items())), rng[0].key() if rng and rng[0] is not None else '?',
+                       want0[0].key(), want0[1].key(), want0[2].key(), want0[3]), f.loc(sn.node))
+            okr = rng is not None and rng[1] is not None and rng[1] == n_ + 1
+            run.check(okr, rule, f.qual, 'sweep range (%s)' % label, 'the sweep runs from the first order to n inclusive', 'Q2d sweeps %s' % ast.unparse(sn.node.iter), f.loc(sn.node))
+            kinds.add('loop%s%s' % (neg, m1))
+            if not ok0:
+                continue
+            iP2, iP1, iQ1 = [Rat(R.atom('in_' + k)) for k in ('P2', 'P1', 'Q1')]
+            Mx = M
+            Pn = (at('A_q2d', nn - 1, Mx) + at('B_q2d', nn - 1, Mx) * x) * iP1 - at('C_q2d', nn - 1, Mx) * iP2
+            Qn = (Pn - at('g_q2d', nn - 1, Mx) * iQ1) / at('f_q2d', nn, Mx)
+            gotv = [dom.rat(sw.out(k)) if sw.out(k) is not None else None for k in ('P2', 'P1', 'Q1')]
+            oks = all(v is not None for v in gotv) and gotv[0] == iP1 and gotv[1] == Pn and gotv[2] == Qn
+            run.check(oks, rule, f.qual, 'step (%s)' % label, 'P_n = (A_(n-1) + B_(n-1) x) P_(n-1) - C_(n-1) P_(n-2); Q_n = (P_n - g_(n-1) Q_(n-1))/f_n; the pair is rotated',
+                      'Q2d recurrence step gives (P_(n-2), P_(n-1), Q_(n-1)) <- (%s), expected (P_(n-1), P_n, Q_n) with P_n = %s, Q_n = %s' % (', '.join(v.key() if v is not None else '?' for v in gotv), Pn.key(), Qn.key()), f.loc(sn.node))
+            # what is returned after the sweep is the Q of the last order
+            lastq = set(sw.fresh_equal(dom, Qn))
+            posts = post_atoms(got)
+            got_, pref_ = got, pref
+            if not neg and _has(p, 'm == 0', False) and (_has(p, 'sign(m) == -1', False) or _has(p, 'm < 0', False) or _has(p, 'm > 0', True)):
+                absm = 'abs(%s)' % m_.key()          # m > 0 on this path: |m| is m
+                got_, pref_ = got.subs({absm: m_}), pref.subs({absm: m_})
+            okres = len(posts) == 1 and posts <= lastq and got_ == Rat(R.atom('post_' + sorted(posts)[0])) * pref_
+            run.check(okres, rule, f.qual, 'result (%s)' % label, 'the last Q computed by the sweep times u^|m| %s(|m| t) is returned' % ('sin' if neg else 'cos'),
+                      'Q2d returns %s after the sweep (the names holding Q_n after an iteration are %s)' % (got.key(), sorted(lastq)), f.loc())
+        need = {'m0'} | {'base%d%s%s' % (k, neg, m1) for k in (0, 1) for neg in (True, False) for m1 in (True, False)} | {'base%d%sTrue' % (k, neg) for k in (2, 3) for neg in (True, False)} \
+            | {'loop%s%s' % (neg, m1) for neg in (True, False) for m1 in (True, False)}
+        if not need <= kinds:
+            raise AnalysisError('Q2d: expected cases not all found, missing %s' % sorted(need - kinds))
 
-    def call_prysm2(fi, args, kwargs, node):
-        if fi.name == 'jacobi':
-            return dom.func_atom('jacobi', list(args))
-        return None
-    dom.call_prysm = call_prysm2
-    f = db.func(Q + 'Qcon')
-    rs = returns(it.run(f, kwargs=lambda: {'n': dom.sym('n'), 'x': dom.sym('x')}), f)
-    xx = Rat(R.atom('x'))
-    want = Rat(R.func('jacobi', [Rat(R.atom('n')), Rat(R.const(0)), Rat(R.const(4)), 2 * xx * xx - 1])) * xx * xx * xx * xx
-    for p in rs:
-        g = as_rat(dom, p.value, 'Qcon')
-        run.check(g == want, rule, f.qual, 'definition', 'Qcon_n = x^4 P_n^(0,4)(2 x^2 - 1)', 'Qcon = %s, expected %s' % (g.key(), want.key()), f.loc())
+
+    def part_qbfs():
+        # ------------------------------------------------------------------ Qbfs
+        it, dom = mk()
+        R = dom.R
+        at = lambda name, *a: Rat(R.func(name, list(a)))
+        C = lambda v: Rat(R.const(v))
+        f = db.func(Q + 'Qbfs')
+        snaps = snapshot_loops(it, dom)
+        xx = Rat(R.atom('x'))
+        rho = xx * xx
+        cQ = rho * (1 - rho)
+        s19 = Rat(R.sqrt(C(19)))
+        kinds = set()
+        for p in it.run(f, kwargs=lambda: {'n': dom.sym('n'), 'x': dom.sym('x')}):
+            if p.outcome != 'return':
+                continue
+            got = as_rat(dom, p.value, 'Qbfs')
+            if _has(p, 'n == 0', True):
+                run.check(got == cQ, rule, f.qual, 'n = 0', 'Qbfs_0 = rho^2 (1 - rho^2) with rho = x', 'Qbfs(0) = %s' % got.key(), f.loc()); kinds.add(0)
+            elif _has(p, 'n == 1', True):
+                run.check(got == cQ * (13 - 16 * rho) / s19, rule, f.qual, 'n = 1', 'Qbfs_1 = rho^2(1-rho^2)(13 - 16 rho^2)/sqrt(19)', 'Qbfs(1) = %s' % got.key(), f.loc()); kinds.add(1)
+            else:
+                mine = [sn for sn in snaps if sn.conds == p.conds]
+                if len(mine) != 1:
+                    raise AnalysisError('Qbfs: loop snapshot not found')
+                sn = mine[0]
+                env = sn.env
+                want0 = [C(2), 6 - 8 * rho, C(1), (13 - 16 * rho) / s19]
+                sw = sweep_step(it, dom, f, sn, dict(zip(('P2', 'P1', 'Q2', 'Q1'), want0)))
+                if any(v is None for v in sw.roles.values()):
+                    raise AnalysisError('Qbfs: the sweep that carries (P_(n-2), P_(n-1), Q_(n-2), Q_(n-1)) in locals of the routine is not found in the form this rule follows')
+                ok0 = all(v is not None for v in sw.roles.values()) and set(sw.carried) == set(sw.roles.values())
+                run.check(ok0, rule, f.qual, 'initial values', 'P_0 = 2, P_1 = 6 - 8 rho^2, Q_0 = 1, Q_1 = (13 - 16 rho^2)/sqrt(19)',
+                          'Qbfs enters its loop with %s' % ', '.join('%s=%s' % (k, v.key() if v is not None else '?') for k, v in sorted(sw.entry.items())), f.loc(sn.node))
+                fr0 = Frame(f, f.module, dict(env))
+                it_args = sn.node.iter.args if isinstance(sn.node.iter, ast.Call) and ast.unparse(sn.node.iter.func) == 'range' else []
+                rng = [dom.rat(it.ev(a, fr0)) for a in it_args]
+                okr = len(rng) == 2 and all(v is not None for v in rng) and rng[0] == C(2) and rng[1] == Rat(R.atom('n')) + 1
+                run.check(okr, rule, f.qual, 'sweep range', 'the sweep runs from 2 to n inclusive', 'Qbfs sweeps %s' % ast.unparse(sn.node.iter), f.loc(sn.node))
+                if ok0:
+                    nn = Rat(R.atom('nn'))
+                    iP2, iP1, iQ2, iQ1 = [Rat(R.atom('in_' + k)) for k in ('P2', 'P1', 'Q2', 'Q1')]
+                    Pn = (2 - 4 * rho) * iP1 - iP2
+                    Qn = (Pn - at('g_qbfs', nn - 1) * iQ1 - at('h_qbfs', nn - 2) * iQ2) / at('f_qbfs', nn)
+                    gotv = [dom.rat(sw.out(k)) if sw.out(k) is not None else None for k in ('P2', 'P1', 'Q2', 'Q1')]
+                    oks = all(v is not None for v in gotv) and gotv[0] == iP1 and gotv[1] == Pn and gotv[2] == iQ1 and gotv[3] == Qn
+                    run.check(oks, rule, f.qual, 'step', 'P_n = (2 - 4 rho^2) P_(n-1) - P_(n-2); Q_n = (P_n - g_(n-1) Q_(n-1) - h_(n-2) Q_(n-2))/f_n; both pairs are rotated',
+                              'Qbfs recurrence step gives %s' % [v.key() if v is not None else '?' for v in gotv], f.loc(sn.node))
+                    lastq = set(sw.fresh_equal(dom, Qn))
+                    posts = post_atoms(got)
+                    okres = len(posts) == 1 and posts <= lastq and got == Rat(R.atom('post_' + sorted(posts)[0])) * cQ
+                    run.check(okres, rule, f.qual, 'result', 'the last Q of the sweep times rho^2(1-rho^2) is returned',
+                              'Qbfs returns %s (the names holding Q_n after an iteration are %s)' % (got.key(), sorted(lastq)), f.loc())
+                kinds.add(2)
+        if kinds != {0, 1, 2}:
+            raise AnalysisError('Qbfs: expected the cases n = 0, 1, general')
+
+    def part_qcon():
+        # Qcon
+        it, dom = mk()
+        R = dom.R
+
+        def call_prysm2(fi, args, kwargs, node):
+            if fi.name == 'jacobi':
+                return dom.func_atom('jacobi', list(args))
+            return None
+        dom.call_prysm = call_prysm2
+        f = db.func(Q + 'Qcon')
+        rs = returns(it.run(f, kwargs=lambda: {'n': dom.sym('n'), 'x': dom.sym('x')}), f)
+        xx = Rat(R.atom('x'))
+        want = Rat(R.func('jacobi', [Rat(R.atom('n')), Rat(R.const(0)), Rat(R.const(4)), 2 * xx * xx - 1])) * xx * xx * xx * xx
+        for p in rs:
+            g = as_rat(dom, p.value, 'Qcon')
+            run.check(g == want, rule, f.qual, 'definition', 'Qcon_n = x^4 P_n^(0,4)(2 x^2 - 1)', 'Qcon = %s, expected %s' % (g.key(), want.key()), f.loc())
+
+    # Each routine is decided twice: for every order, by induction over its sweep (which needs the sweep to be a loop of the routine
+    # carrying the polynomials in locals), and for the orders 0..6 by unrolling (which does not care how the routine is organised).
+    # A routine whose sweep the induction cannot follow is still decided for the unrolled orders, and the evidence says so; only a
+    # routine neither can follow is a refusal.
+    for part, sym in (('Q2d', part_q2d), ('Qbfs', part_qbfs)):
+        try:
+            fixed, ferr = qfixed_rules(run, db, rule, parts=(part,)).get(part, 0), None
+        except (AnalysisError, RecursionError) as e:
+            fixed, ferr = 0, e
+        try:
+            sym()
+        except AnalysisError as e:
+            if not fixed:
+                raise AnalysisError('%s; and the orders 0..6 are not followed either: %s' % (e, ferr))
+            run.info('%s: %s: the induction over the sweep is not available (%s); decided for the orders 0..6 only (%d obligations)' % (rule, part, str(e)[:160], fixed))
+    part_qcon()
+
+
+def qfixed_rules(run, db, rule='C07.qloop', parts=('Q2d', 'Qbfs')):
+    """Q2d and Qbfs decided for fixed small orders: the routine is interpreted with the order(s) concrete integers and the coordinates
+    symbols, however it is organised (loops, helpers, generators, tables), and what it returns is compared with the published
+    recurrences unrolled to that order.  The auxiliary coefficients (f, g, h; A, B, C) stay opaque, at concrete indices: they have
+    their own rule (C07.forbes).  Bounded (the listed orders only).  {part: number of obligations}; AnalysisError when not followed."""
+    Q = 'prysm.polynomials.qpoly.'
+    ATOMS = ('g_qbfs', 'h_qbfs', 'f_qbfs', 'g_q2d', 'f_q2d', 'abc_q2d', 'Qbfs')
+
+    def mk():
+        it, dom = norm_interp(db)
+
+        def call_prysm(fi, args, kwargs, node):
+            if fi.name == 'abc_q2d':
+                return Tup([dom.func_atom('%s_q2d' % c, list(args)) for c in 'ABC'])
+            if fi.name in ATOMS and fi.qual != f.qual:
+                return dom.func_atom(fi.name, list(args))
+            return None
+        dom.call_prysm = call_prysm
+        return it, dom
+    counts = {}
+    if 'Qbfs' in parts:
+        f = db.func(Q + 'Qbfs')
+        it, dom = mk()
+        R = dom.R
+        at = lambda name, *a: Rat(R.func(name, list(a)))
+        C = lambda v: Rat(R.const(v))
+        xx = Rat(R.atom('x'))
+        rho = xx * xx
+        cQ = rho * (1 - rho)
+        s19 = Rat(R.sqrt(C(19)))
+        Ps = [C(2), 6 - 8 * rho]
+        Qs = [C(1), (13 - 16 * rho) / s19]
+        for k in range(2, 7):
+            Ps.append((2 - 4 * rho) * Ps[k - 1] - Ps[k - 2])
+            Qs.append((Ps[k] - at('g_qbfs', C(k - 1)) * Qs[k - 1] - at('h_qbfs', C(k - 2)) * Qs[k - 2]) / at('f_qbfs', C(k)))
+        for k in range(0, 7):
+            rs = [p for p in it.run(f, kwargs=lambda: {'n': Const(k), 'x': dom.sym('x')}) if p.outcome == 'return']
+            if len(rs) != 1:
+                raise AnalysisError('Qbfs(%d, x): expected one returning path for a concrete order, got %d' % (k, len(rs)))
+            got = dom.rat(rs[0].value)
+            if got is None:
+                raise AnalysisError('Qbfs(%d, x): the returned value is not followed (%r)' % (k, rs[0].value))
+            run.check(got == Qs[k] * cQ, rule, f.qual, 'order %d (unrolled)' % k, 'Qbfs_%d = rho^2(1-rho^2) Q_%d with the published recurrence unrolled from (P_0, P_1, Q_0, Q_1)' % (k, k),
+                      'Qbfs(%d, x) returns %s, the published recurrence gives %s' % (k, got.key()[:160], (Qs[k] * cQ).key()[:160]), f.loc())
+            counts['Qbfs'] = counts.get('Qbfs', 0) + 1
+    if 'Q2d' in parts:
+        f = db.func(Q + 'Q2d')
+        it, dom = mk()
+        R = dom.R
+        at = lambda name, *a: Rat(R.func(name, list(a)))
+        C = lambda v: Rat(R.const(v))
+        r_, t_ = Rat(R.atom('r')), Rat(R.atom('t'))
+        x = r_ * r_
+        for m in (0, 1, -1, 2, -2, 3):
+            M = abs(m)
+            if m != 0:
+                Ps = [C(1) / 2, (1 - x / 2) if M == 1 else ((C(M) - C(1) / 2) + (1 - C(M)) * x)]
+                if M == 1:
+                    Ps += [(3 - x * (12 - 8 * x)) / 6, (5 - x * (60 - x * (120 - 64 * x))) / 10]
+                while len(Ps) < 7:
+                    k = len(Ps)
+                    Ps.append((at('A_q2d', C(k - 1), C(M)) + at('B_q2d', C(k - 1), C(M)) * x) * Ps[k - 1] - at('C_q2d', C(k - 1), C(M)) * Ps[k - 2])
+                Qs = [1 / (2 * at('f_q2d', C(0), C(M)))]
+                for k in range(1, 7):
+                    Qs.append((Ps[k] - at('g_q2d', C(k - 1), C(M)) * Qs[k - 1]) / at('f_q2d', C(k), C(M)))
+                rM = C(1)
+                for _ in range(M):
+                    rM = rM * r_
+                pref = rM * Rat(R.trig('sin' if m < 0 else 'cos', C(M) * t_))
+            for k in range(0, 7):
+                rs = [p for p in it.run(f, kwargs=lambda: {'n': Const(k), 'm': Const(m), 'r': dom.sym('r'), 't': dom.sym('t')}) if p.outcome == 'return']
+                if len(rs) != 1:
+                    raise AnalysisError('Q2d(%d, %d, r, t): expected one returning path for concrete orders, got %d' % (k, m, len(rs)))
+                got = dom.rat(rs[0].value)
+                if got is None:
+                    raise AnalysisError('Q2d(%d, %d, r, t): the returned value is not followed (%r)' % (k, m, rs[0].value))
+                want = at('Qbfs', C(k), r_) if m == 0 else Qs[k] * pref
+                run.check(got == want, rule, f.qual, 'order (%d, %d) (unrolled)' % (k, m), 'Q_%d^%d = the published recurrence unrolled from its starting polynomials, times u^|m| cos/sin(|m| t)' % (k, m),
+                          'Q2d(%d, %d, r, t) returns %s, the published recurrence gives %s' % (k, m, got.key()[:160], want.key()[:160]), f.loc())
+                counts['Q2d'] = counts.get('Q2d', 0) + 1
+    return counts
 
 
 def check(run, db, tier):
